@@ -384,6 +384,8 @@ def is_transparent(path):
     last = path.rsplit("::", 1)[-1]
     if last in TRANSPARENT_LAST:
         return True
+    if path.startswith("std::convert::num::<impl std::convert::From<") and path.endswith(">::from"):
+        return True      # lossless integer widening (`usize::from(x)` for `x as usize`)
     return path.endswith("Into>::into") or path.endswith("From>::from") or path.endswith("::Into::into") or path.endswith("::From::from")
 
 
